@@ -34,7 +34,7 @@ PROPS = [("prop_a", True), ("a-b", True), ("name", False), ("Label", False), ("_
          # property names that happen to be yes/no words: names, not truth values
          ("yes", True), ("No", True), ("TRUE", True), ("false", True), ("true", True)]
 SHAPES = ["literal", "ref", "ref-in-group", "smart-quotes"]
-PLACEMENTS = ["none", "top", "group", "repeat", "on-group", "repeat>group", "group>repeat", "group>group", "on-repeat", "repeat>repeat>group"]
+PLACEMENTS = ["none", "top", "group", "repeat", "on-group", "repeat>group", "group>repeat", "group>group", "on-repeat", "repeat>repeat>group", "or-other-select"]
 
 
 def plan(tier, seed):
@@ -89,6 +89,11 @@ def build(combo, shape, placement, dataset, prop="prop_a"):
         rq.cells["save_to"] = prop
     elif placement == "on-group":
         g.cells["save_to"] = prop
+    elif placement == "or-other-select":
+        # the select saves to the property; the generated '<name>_other' companion is not the cell that asked for it
+        f.survey.append(Row("q", "select_one l9 or_other", "pick", {"label": "P", "save_to": prop}, meta={"or_other": True}))
+        f.choices = {"l9": [{"name": "a", "label": "A"}, {"name": "b", "label": "B"}]}
+        saved.append("/data/pick")
     ent = {"list_name": dataset}
     for k, on in (("entity_id", has_id), ("create_if", has_c), ("update_if", has_u), ("label", has_l)):
         if on:
@@ -254,6 +259,20 @@ def run_shard(ctx):
                     if dataset == "x:y":
                         continue
                     judge_accepted(ctx, form, combo, shape, saved, o, wit, dataset)
+                    if n % 3 == 0 and getattr(o, "result", None) is not None:
+                        # the survey rebuilt from its own JSON dump declares the same entity (an API caller stores and reloads forms this way)
+                        import json as _json
+                        from pyxform.builder import create_survey_element_from_dict
+                        try:
+                            sv2 = create_survey_element_from_dict(_json.loads(_json.dumps(o.result._survey.to_json_dict())))
+                            x2 = sv2.to_xml(validate=False, pretty_print=False)
+                        except Exception as e2:  # noqa: BLE001
+                            ctx.viol(f"reload:raised:{type(e2).__name__}", f"reloading the survey's JSON dump raised {type(e2).__name__}: {str(e2)[:200]}", wit(history="dump-load"))
+                        else:
+                            ctx.ctr("reloaded_surveys_judged")
+                            o2 = type("O", (), {})()
+                            o2.xform = x2
+                            judge_accepted(ctx, form, combo, shape, saved, o2, lambda **kw: wit(history="survey -> to_json_dict -> JSON text -> survey -> to_xml", **kw), dataset)
                     if n <= 3:
                         ctx.sample({"combination": dict(zip(["entity_id", "create_if", "update_if", "label"], combo)), "shape": shape, "save_to": placement,
                                     "dataset": dataset, "observed": "attributes, binds, setvalue, saveto, namespace as the table prescribes"})
